@@ -234,9 +234,16 @@ func VP_C11_AcknowledgedChangeNeverUndone() {
 // state is that of the same order.
 func VP_C11_LinearizableRuns() {
 	s, st, _, _ := vpAgent(1, "")
-	vpSchedExplore(true)
-	done := make(chan bool, 2)
 	k1, k2 := vpChoose("client1", 5), vpChoose("client2", 5)
+	if vpTier() == 1 {
+		// thorough: additionally one preemption at any channel operation; the two clients are
+		// symmetric, so unordered pairs suffice
+		vpAssume(k1 <= k2)
+		vpSchedExploreFine(1)
+	} else {
+		vpSchedExplore(true)
+	}
+	done := make(chan bool, 2)
 	type resT struct {
 		ok  bool
 		err error
@@ -263,6 +270,7 @@ func VP_C11_LinearizableRuns() {
 	go run(1, k2)
 	a := vpAwait(done)
 	b := vpAwait(done)
+	vpSchedExploreFine(0)
 	vpSchedExplore(false)
 	vpAssert("both-answered", a && b)
 	vpSettle()
